@@ -57,6 +57,12 @@ def _strategy():
         "in_place": st.sampled_from([False, False, True, "deep"]),
         # the first receiver's Dm1 object has one more subscriber, registered first, that unsubscribes itself at its first call
         "oneshot_first": st.sampled_from([False, False, True]),
+        # the first receiver's Dm1 object has one more subscriber, registered first, that post-processes what it is handed
+        # (adds a text to every code dict, maps the 'not available' count to None, switches a lamp off in its copy)
+        "sub_mutates": st.sampled_from([False, False, True]),
+        # with also_rx: the sending Dm1 object has TWO own subscribers, the first one takes that long - and the foreign node's DM1
+        # arrives half that time before the object's own next send cycle
+        "own_slow": st.sampled_from([0.0, 0.0, 0.004, 0.03]),
         "sa": st.sampled_from([0x28, 0x28, 0x00, 0x01, 0xCA, 0xFD]),
         "lat": st.lists(st.sampled_from([1e-6, 0.0002, 0.001, 0.005]), min_size=1, max_size=2),
         "eps": st.lists(st.sampled_from([0.0, 1e-5, 1e-3]), min_size=1, max_size=2),
@@ -72,7 +78,7 @@ class C16:
             "625 lamp combinations, DM22 request bytes for boundary SPNs x all 32 FMI x both request kinds; end-to-end cases are "
             "drawn by Hypothesis: layer, 1-4 cycles each with a lamp dict (any subset of pl/awl/rsl/mil, states 0..4) and 1..400 "
             "trouble codes (classes 1 / 2-3 / 14-16 / 100 / 400), cycle time above ('long', every cycle must arrive) or below "
-            "('short', every received value must have been supplied, no more often than supplied) the transfer duration, 1-2 subscribers, in one case of three the sending Dm1 object also subscribes while a foreign node sends DM1 in between and the application hands out one persistent lamp dict, in one case of four the application keeps one lamp dict and one code list and refills them before every cycle and in one of four it also keeps the code dicts and only updates their fields, a data callback that takes 0 / 5 / 30 ms, then "
+            "('short', every received value must have been supplied, no more often than supplied) the transfer duration, 1-2 subscribers, in one case of three the sending Dm1 object also subscribes while a foreign node sends DM1 in between and the application hands out one persistent lamp dict (optionally with two own subscribers of which the first takes 4 / 30 ms while the foreign DM1 arrives just before the object's own next cycle), in one case of three the first receiver has a further subscriber that post-processes the dicts it is handed, in one case of four the application keeps one lamp dict and one code list and refills them before every cycle and in one of four it also keeps the code dicts and only updates their fields, a data callback that takes 0 / 5 / 30 ms, then "
             "stop_send - from the application between cycles, from inside the data callback, or from the application while the "
             "data callback is running - and three further cycle times of silence; non-trivial (e2e) = at least one multi-frame DM1 was received; "
             "every codec block is non-trivial; distinct = distinct blocks / parameter sets")
@@ -195,6 +201,13 @@ class C16:
                     def once(sa, lamps, dtcs, ts, rd=rd):
                         rd.unsubscribe(once)
                     rd.subscribe(once)
+                if i == 0 and p.get("sub_mutates"):
+                    def post(sa, lamps, dtcs, ts):
+                        lamps["pl"] = 0
+                        for d in dtcs:
+                            d["text"] = "SPN %d FMI %d" % (d["spn"], d["fmi"])
+                            d["oc"] = None if d["oc"] == 127 else d["oc"] + 1000
+                    rd.subscribe(post)
                 rd.subscribe((lambda i=i: (lambda sa, lamps, dtcs, ts: got[i].append((w.sim.now, sa, dict(lamps), [dict(d) for d in dtcs]))))())
             supplied = []
             idx = [0]
@@ -203,8 +216,12 @@ class C16:
             own_rx = []
             keep = dict(p["cycles"][0]["lamps"])          # the application's own, persistent lamp dict
             keep0 = dict(keep)
+            own_rx2 = []
             if p.get("also_rx"):
-                dm1.subscribe(lambda sa, lamps, dtcs, ts: own_rx.append((w.sim.now, sa, dict(lamps))))
+                if p.get("own_slow"):
+                    dm1.subscribe(lambda sa, lamps, dtcs, ts: sk.FAKE_TIME.sleep(p["own_slow"]))
+                dm1.subscribe(lambda sa, lamps, dtcs, ts: (own_rx.append((w.sim.now, sa, dict(lamps))),
+                                                           own_rx2.append((w.sim.now, sa, dict(lamps), [dict(d) for d in dtcs]))))
                 foreign = simbus.RawNode(w.bus, "F")
                 f_lamps = {"pl": 1, "awl": 2, "rsl": 3, "mil": 1}
                 f_data = bytes(R.dm1_payload(f_lamps, [{"spn": 1208, "fmi": 3, "oc": 5}]))
@@ -262,7 +279,8 @@ class C16:
             dm1.start_send(cb, cycle)
             if p.get("also_rx"):
                 for kf in range(ncyc):
-                    w.at(w.sim.now - w.t0 + cycle * (kf + 0.5), lambda: foreign.send(R.mk_id(6, 0, 0xFE, 0xCA, 0x77), f_data))
+                    t_f = cycle * (kf + 0.5) if not p.get("own_slow") else cycle * (kf + 1) - p["own_slow"] / 2
+                    w.at(w.sim.now - w.t0 + t_f, lambda: foreign.send(R.mk_id(6, 0, 0xFE, 0xCA, 0x77), f_data))
             w.run_for(cycle * ncyc + cycle * 0.5)
             if stopped_in_cb:
                 t_stop = stopped_in_cb[0]
@@ -302,6 +320,14 @@ class C16:
         if p.get("also_rx") and not any(sa == 0x77 for (_, sa, _) in own_rx) and not live:
             V("own-subscriber-missed-foreign-dm1", "the sending Dm1 object's own subscriber got %d DM1 from the foreign node" %
               len(own_rx), site)
+        if p.get("also_rx"):
+            # what the sending object's own subscribers are handed for the foreign node's DM1 is the foreign node's data
+            want = norm(f_lamps, [{"spn": 1208, "fmi": 3, "oc": 5}])
+            for (t_, sa, l_, d_) in own_rx2:
+                if sa == 0x77 and norm(l_, d_) != want:
+                    V("own-subscriber-wrong-foreign-dm1", "a subscriber of the sending Dm1 object was handed, for the DM1 of node 0x77 at "
+                      "t=%.4f, lamps %r and codes %r; node 0x77 sent %r" % (t_ - 1000, l_, d_[:3], want), site)
+                    break
         sup = [norm(l, d) for (_, l, d) in supplied[:n_supplied_at_stop]]
         if len(supplied) > n_supplied_at_stop:
             V("callback-after-stop", "the DM1 data callback was invoked %d time(s) after stop_send returned" %
